@@ -119,7 +119,8 @@ class LoopSpec:
     unroll             -> int: unroll that many times instead of cutting (concrete bound)
     """
     def __init__(self, inv=None, havoc=None, decreases=None, carried=None, index=None,
-                 frame=None, step=None, on_head=None, on_init=None, keep=(), target_after='last'):
+                 frame=None, step=None, on_head=None, on_init=None, keep=(), target_after='last', on_break=None):
+        self.on_break = on_break    # on_break(I, env, k) -> obligations checked when the body leaves the loop with `break`
         self.keep = tuple(keep)     # loop-carried locals that deliberately keep their pre-loop (symbolic) value
         # 'last': after the loop the target holds the last element (branches on an empty sequence);
         # 'unknown': the target is marked possibly-unbound / stale instead (no branch; reading it is an error)
@@ -413,6 +414,12 @@ class Interp:
         # ordering
         if is_concrete(a) and is_concrete(b):
             return {'<': operator.lt, '<=': operator.le, '>': operator.gt, '>=': operator.ge}[op](a, b)
+        # a symbolic number against +-infinity (float('Inf') as "no limit")
+        for x, y, flip in ((a, b, False), (b, a, True)):
+            if isinstance(y, float) and y in (float('inf'), float('-inf')) and is_z3(x) and isinstance(x, z3.ArithRef):
+                o = REFLECT[op] if flip else op
+                pos = y > 0
+                return (o in ('<', '<=')) if pos else (o in ('>', '>='))
         if isinstance(a, SymObj):
             hook = self.reg and self.reg.protocol(a.cls, DUNDER[op])
             if hook:
@@ -2372,6 +2379,9 @@ class Interp:
             except _Continue:
                 pass
             except _Break:
+                if getattr(spec, 'on_break', None):
+                    for nm, g in spec.on_break(self, env, k):
+                        e.prove(f'{tag}/break/{nm}', g)
                 env.vars.pop(idxname, None)
                 return
             k1 = k + 1
